@@ -65,9 +65,9 @@ class Values:
                 return ('cust', typ.__name__, kf(v, self))
         if t is tuple:
             return ('tup',) + tuple(self.key(x) for x in v)
-        if t is list:
+        if t is list or (isinstance(v, list) and getattr(t, '_as_plain_value', False)):
             return ('list',) + tuple(self.key(x) for x in v)
-        if t is dict:
+        if t is dict or (isinstance(v, dict) and getattr(t, '_as_plain_value', False)):
             return ('dict',) + tuple(sorted((self.key(k), self.key(x)) for k, x in v.items()))
         if isinstance(v, BaseException):
             if t.__name__ in ('InvalidStateError', 'CancelledError', 'TimeoutError', 'Full', 'Empty', 'KeyError',
@@ -350,10 +350,10 @@ def _abs(o, seen, depth):
         return ('ref', seen[i])
     if depth > 7:
         return _uniq('deep')
-    if t in (tuple, list):
+    if t in (tuple, list) or (isinstance(o, list) and getattr(t, '_as_plain_value', False)):
         seen[i] = len(seen)
         return (t.__name__,) + tuple(_abs(x, seen, depth + 1) for x in o)
-    if t is dict:
+    if t is dict or (isinstance(o, dict) and getattr(t, '_as_plain_value', False)):
         seen[i] = len(seen)
         try:
             return ('dict',) + tuple((_abs(k, seen, depth + 1), _abs(v, seen, depth + 1)) for k, v in o.items())
